@@ -41,6 +41,12 @@ P = {
  "C19": ("exploration", "rapid PBT over match expressions (patterns aimed to hit or miss the subject); differential against a reference model of case selection, binding and evaluation order",
    "15k (300k thorough) programs with 1-3 match expressions: subjects of every kind, 1-5 cases x 1-3 alternatives (literals, identifiers, nested array patterns, deliberate misses), expression and block bodies with return/next/continue, poisoned later patterns that fault if evaluated, match in every syntactic use. Printed values and side-effect traces must equal refjq's. Exploration (model-based differential).",
    "Trusted: refjq's match semantics (DESIGN.md 4.5). Negative-number, regex and other expression patterns are unspecified and not generated; assignment to a bound name is not generated.", "5/C19, 4.5"),
+ "C04": ("exploration", "rapid PBT, round trip: generated documents / program-built values -> -o or json() -> the harness's own strict JSON recogniser -> equality with the input as read or with refjq's value; cyclic and inexpressible values must be rejected",
+   "10k (300k thorough) documents with random spelling (whitespace, escapes, number forms, duplicate keys, forced empty containers) through 8 non-modifying programs and 0-1 selector, a sample through the binary with -o - and -o FILE; 6k (150k) program-built values (auto-created, plucked, shared, cyclic of every shape, regex) through json() and as the root for -o; non-finite numbers. Exploration (round trip).",
+   "Trusted: package jsonx (strict RFC 8259 recogniser, order-free equality, exact decimal -> double), refjq for the value a program builds. Strings are valid UTF-8 (JSON cannot carry other bytes).", "5/C04"),
+ "C12": ("exploration", "rapid PBT: single-line faults (illegal characters incl. multi-byte, stray tokens, out-of-context keywords, invalid assignment targets, 23 runtime kits) inserted at recorded byte spans into multi-line programs with blank lines, comments, CRLF, tabs and non-ASCII text; validity predicate over the reported Line / Col / SrcLine",
+   "15k (400k thorough) programs of up to 60 lines; the reported line must be the fault's line, SrcLine exactly that line of the text, and the byte column inside the inserted construct (exactly on a single-byte illegal character); every error also satisfies Line >= 1 and SrcLine == line Line; 150 (3000) cases compare the binary's three stderr lines. Exploration.",
+   "Trusted: the renderer's recorded token offsets. For a multi-byte illegal character any byte of it is accepted as the column.", "5/C12"),
  "C05": ("exploration", "exhaustive small-scope enumeration + rapid PBT, differential against a reference model of the section-3 operator tables",
    "Every operator x every ordered pair of 40 representative operands x 3-4 supply modes is enumerated completely (about 66k programs), then 20k (quick) / 150k (thorough) random operand pairs; each result is compared in kind, value and error class with the section-3 tables. Exploration, exhaustive over the stated representative grid: it decides the table on the grid, not on every double.",
    "Trusted: refjq's transcription of DESIGN.md section 3; Go's regexp for RE2; exotic numeric strings, non-finite results and |x| >= 2^53 for % are unspecified and discarded (counted).", "5/C05, 3"),
